@@ -64,7 +64,7 @@ def run(ctx):
     ctx.notes["correspondence"] = {
         "cases": len(lines), "mismatches": len(mism), "distinct_cases": distinct,
         "exhaustive_alphabet_len": exh,
-        "kinds": {k: sum(1 for l in lines if l.startswith(k + "\t")) for k in ("W", "R", "F", "B")},
+        "kinds": {k: sum(1 for l in lines if l.startswith(k + "\t")) for k in ("W", "R", "F", "B", "X")},
     }
     ctx.cov["samples"] += [l[:300] for l in lines[1000:1003]] + [l[:300] for l in lines[-3:]]
     ctx.log("correspondence: %d cases, %d mismatches" % (len(lines), len(mism)))
